@@ -316,6 +316,9 @@ func (f *FnVC) applyContract(st *State, ct *spec.FuncContract, fn *ssa.Function,
 	f.bindResults(env, sig, res)
 	f.assumeKnownDeep(st, res)
 	for _, e := range ct.Ensures {
+		if internalClause(e.Text) {
+			continue // talks about the callee's own call sites: meaningless to callers
+		}
 		v, err := f.evalSpec(env, e.Expr, types.Typ[types.Bool])
 		if err != nil {
 			f.E.specError(e, err)
@@ -324,6 +327,10 @@ func (f *FnVC) applyContract(st *State, ct *spec.FuncContract, fn *ssa.Function,
 		f.assume(st, v.T)
 	}
 	return res
+}
+
+func internalClause(text string) bool {
+	return strings.Contains(text, "called(") || strings.Contains(text, "res(") || strings.Contains(text, "arg(")
 }
 
 func contractMentionsHeld(ct *spec.FuncContract) bool {
